@@ -8,6 +8,7 @@ package sim
 
 import (
 	"fmt"
+	sdk "github.com/cosmos/cosmos-sdk/types"
 	"math/big"
 	"math/rand"
 	"sort"
@@ -534,6 +535,16 @@ func (g *gen) opAddAllowed(a *MAuction) Op {
 	if g.chance(0.04) {
 		op.Entries[g.r.Intn(len(op.Entries))].Upper = true
 		g.intents["upper_case_allow_list_entry"]++
+	}
+	if g.p.Name == "crowd" && len(a.Allowed) < 100 && g.chance(0.5) {
+		// more than a hundred entries on one allow-list: outsiders (well-formed addresses of nobody in the
+		// run) around the actors, so that whatever reads "the allow-list of the auction" must read all of it
+		for i := 0; i < 130; i++ {
+			b := make([]byte, 20)
+			g.r.Read(b)
+			op.Entries = append(op.Entries, AllowedEntry{Who: -2, RawAddr: sdk.AccAddress(b).String(), Max: g.capFor(a).String()})
+		}
+		g.intents["allow_list_of_more_than_100"]++
 	}
 	if g.chance(0.04) {
 		// one invalid entry makes the whole call fail (all or none)
